@@ -1,0 +1,20 @@
+//go:build verif
+
+package el
+
+// Placeholder / expression helpers (C16, C18). The regular expressions themselves are library objects (A-LIB regexp).
+
+//@ func newEl
+//@ property C09 C16 C18
+//@ assigns nothing
+//@ ensures [built] result != nil && typeIs(result, *elHelper) && fresh(payload(result)) && asType(result, *elHelper).Regexp == reg && asType(result, *elHelper).pre == pre && asType(result, *elHelper).suf == suf
+
+//@ func NewQuote
+//@ property C09 C16
+//@ assigns nothing
+//@ ensures [built] result != nil && typeIs(result, *elHelper) && asType(result, *elHelper).Regexp != nil && asType(result, *elHelper).pre == 2 && asType(result, *elHelper).suf == 1
+
+//@ func NewExpr
+//@ property C09 C18
+//@ assigns nothing
+//@ ensures [built] result != nil && typeIs(result, *elHelper) && asType(result, *elHelper).Regexp != nil && asType(result, *elHelper).pre == 2 && asType(result, *elHelper).suf == 1
